@@ -4,6 +4,7 @@ import (
 	"encoding/json"
 	"fmt"
 	"sort"
+	"strings"
 	"time"
 
 	"github.com/SAP/go-dblib/namepool"
@@ -46,7 +47,9 @@ func (c18) Components() map[string]string {
 }
 
 var c18Formats = []string{"%d", "stmt%d", "c_%d_x", "%05d", "%x", "noverb", "", "%v", "%d%%", "cursor_%d",
-	"load_100%%_%d", "%%%d", "%%d%d", "%d_%d", "%s%d", "%[1]d-%[1]d", "% d", "%+d", "%-6d|", "%q", "tab\t%d", "ünï%d", "%c%d"}
+	"load_100%%_%d", "%%%d", "%%d%d", "%d_%d", "%s%d", "%[1]d-%[1]d", "% d", "%+d", "%-6d|", "%q", "tab\t%d", "ünï%d", "%c%d",
+	// long formats: the text is the format applied to the id, however long that is
+	strings.Repeat("n", 254) + "%d", strings.Repeat("prefix_", 40) + "%d_tail", "%0300d"}
 
 func (c18) Gen(r *Rand, idx int, tier string) interface{} {
 	p := &c18Plan{Knobs: GenKnobs(r), Format: Pick(r, c18Formats)}
